@@ -63,7 +63,7 @@ def wrap(s):
 def case(ctx, idx, res):
     r = rng_for(ctx.seed, 'c11', idx)
     drv = ctx.drv('plain')
-    xml, info = gen_xml.gen_tree(r, size=r.choice([8, 15, 25, 40]), ns=r.random() < 0.6)
+    xml, info = gen_xml.gen_doc(r, size=r.choice([8, 15, 25, 40]), ns=r.random() < 0.6)
     doc = refxml.parse(xml)
     nodes = c02.all_nodes(doc)
     use_xerces = r.random() < 0.25
